@@ -62,16 +62,21 @@ Definition wf_arange_set (st : arange_set) : bool :=
   forallb (tuple_ok (as_n st)) (as_tuples st) &&
   (as_unit_length st <? 0xfffffff0).
 
-(* Domain note (DESIGN 4.13): the library pads from the SECTION start, the standard from the
-   SET start; they coincide when every set starts at a multiple of its tuple size, which
-   producers guarantee (sets are emitted with 2*address_size alignment) and wf requires. *)
-Fixpoint wf_aranges_from (off : Z) (sets : list arange_set) : bool :=
+(* A set may start at ANY offset of the section: the padding is counted from the start of
+   the set (as_pad_len), so sets of different address sizes can follow each other without
+   alignment bytes between them (binutils and LLVM read such tables; DWARF 6.1.2). *)
+Definition wf_aranges (sets : list arange_set) : bool := forallb wf_arange_set sets.
+
+(* The narrower domain the library was correct on before the repair (it padded from the
+   SECTION start): every set starts at a multiple of its tuple size.  Kept for the
+   refutation/agreement theorems about the old code. *)
+Fixpoint aranges_aligned_from (off : Z) (sets : list arange_set) : bool :=
   match sets with
   | [] => true
-  | st :: r => wf_arange_set st && (off mod as_tuple_size st =? 0) &&
-               wf_aranges_from (off + 4 + as_unit_length st) r
+  | st :: r => (off mod as_tuple_size st =? 0) &&
+               aranges_aligned_from (off + 4 + as_unit_length st) r
   end.
-Definition wf_aranges (sets : list arange_set) : bool := wf_aranges_from 0 sets.
+Definition aranges_aligned (sets : list arange_set) : bool := aranges_aligned_from 0 sets.
 
 (* what a consumer sees: every tuple with the header of its set *)
 Record arange_entry := mk_arange_entry {
